@@ -270,8 +270,8 @@ def main():
     man = dict(
         version=1,
         setup_cmd='./check --setup',
-        hooks=dict(guard='verif', enable='no hooks: checks observe golem at its API boundary, through the Go runtime (race detector, checkptr, ASan, testing/synctest) and on staged copies; nothing in /repo is built with a tag',
-                   baseline_off_cmd=BASELINE_OFF, source_commits=[], add_only=True),
+        hooks=dict(guard='verif', enable='one hook: internal/maplike/skiplist/verif_hook.go (//go:build verif) adds SetHeightSource, which lets the C18 harness choose the draws a list takes its node heights from; the C18 check stages internal/maplike and builds it with -tags verif. Every other check observes golem at its API boundary, through the Go runtime (race detector, checkptr, ASan, testing/synctest) and on staged copies, with no tag',
+                   baseline_off_cmd=BASELINE_OFF, source_commits=['667bcf2'], add_only=True),
         engines=[dict(name=h, path='harness/' + h, serves_properties=sorted(ps), kind_free_text=ENGINE_TEXT.get(h, '')) for h, ps in sorted(engines.items())],
         checks=checks,
         not_applicable=na,
